@@ -15,9 +15,11 @@ EXPLANATION = ('(R01.1) in every stacked-cache entry point every content write (
                'caller\'s source as their source; (R01.3) for each temp file the stacked cache creates and inserts, the Ok outcome '
                'of its content write dominates the insert and no content write on it is reachable after the insert; (R01.4) the '
                'source handle of a copy into such a file is at offset 0 on every path (rewound after any consumer); (R01.5) such a file '
-               'is written by exactly one writer (no second copy/callback into it without a truncate in between). Atomicity of '
+               'is written by exactly one writer (no second copy/callback into it without a truncate in between); (R01.6) distinct '
+               'accepted key names denote distinct files: the validator returns its argument unchanged and only after the '
+               'first-byte and whole-name separator tests (= R16.2/R16.3). Atomicity of '
                'rename/link/open is POSIX, trusted; interleavings are not enumerated.')
-FLOORS = {'R01.1': 8, 'R01.2': 4, 'R01.3': 6, 'R01.4': 2, 'R01.5': 2}
+FLOORS = {'R01.1': 8, 'R01.2': 4, 'R01.3': 6, 'R01.4': 2, 'R01.5': 2, 'R01.6': 5}
 FIXTURE_RULES = ['R01.1']
 
 INPLACE = {'open_rw', 'truncate', 'ns_create_file'}
@@ -181,9 +183,35 @@ def r01_5(ctx):
     return out
 
 
+def r01_6(ctx):
+    """"never another key's data": two different accepted key names never denote the same file.  The file name used is
+    the validator's Ok payload, so that payload must be the caller's name itself (not a normalised / re-parsed form of
+    it, which could map "report/" and "report" to one file), and the name must have passed the whole-name separator
+    scan (shared with R16.2/R16.3), so that it is a single path component."""
+    from rules import c16
+    out = []
+    v = ctx.role('validator')
+    q = ctx.explore(v, opaque='none')
+    oks = q.terminals(lambda ev: ev['k'] == 'ret' and ev.get('variant') == 'Ok')
+    bad = []
+    for t in oks:
+        pay = q.g.term[t].get('payload', [None])[0]
+        tp = VAL[pay] if pay is not None else None
+        if not (tp is not None and tp[0] == 'sym' and tp[1] == 'param' and tp[2] == '1'):
+            bad.append(t)
+    out.append(inst('R01.6', 'validator returns the name it was given', bool(oks) and not bad,
+                    'every Ok exit of the validator carries its own argument, unchanged (%d exits)' % len(oks) if oks and not bad else
+                    'the validator can return a name other than the one it was given (%s): distinct keys may be mapped to the same file'
+                    % (show(q.g.term[bad[0]].get('payload', [None])[0], 3) if bad else 'no Ok exit')))
+    for i in c16.r16_2_3(ctx):
+        if i['rule'] == 'R16.3' or 'rejects' in i['key']:
+            out.append(inst('R01.6', i['key'].split('|', 1)[1], i['ok'], i['detail'], path=i.get('path') or []))
+    return out
+
+
 def run(ctx):
     from runner import collect
-    return collect(ctx, r01_1, r01_2, r01_3, r01_4, r01_5)
+    return collect(ctx, r01_1, r01_2, r01_3, r01_4, r01_5, r01_6)
 
 
 def run_fixture(fctx):
